@@ -340,6 +340,13 @@ func runShape(w *world.World, n int, sh Shape, o *Out) error {
 		if code == -1 {
 			o.Panic = "set: " + msg
 		}
+		// the controllers run in the server process: whatever the request logged is reconciled to quiescence
+		if _, derr := w.Drain(400); derr != nil {
+			return derr
+		}
+		if ps := w.TakePanics(); len(ps) > 0 {
+			o.Panic = "reconcile after set: " + ps[0]
+		}
 		w.AbandonHandlers()
 	case "sub":
 		fs := &fakeStream{ctx: ctx}
